@@ -1,2 +1,1011 @@
-(* Proofs/AlignProofsB.v *)
+(* Proofs/AlignProofsB.v — optimality with zero gap-open (C09), and Local. *)
 From Bio Require Import Base.
+From Bio.Model Require Import Align.
+From Bio.Spec Require Import AlignSpec.
+From Bio.Proofs Require Import AlignProofs.
+Open Scope Z_scope.
+
+Lemma decide_max : forall m d i,
+  m <= fst (decide m d i) /\ d <= fst (decide m d i) /\ i <= fst (decide m d i).
+Proof.
+  intros m d i. destruct (decide_cases m d i) as [[E H]|[[E H]|[E H]]]; rewrite E; cbn [fst]; lia.
+Qed.
+
+Lemma clamp_none_id : forall c, clamp_none c = c.
+Proof. reflexivity. Qed.
+
+Lemma fscore_snoc_none : forall w al p a b, fscore w p a b (al ++ [SNone]) = None.
+Proof.
+  intros w. induction al as [|s r IH]; intros p a b; [reflexivity|].
+  destruct s; cbn [app fscore]; try reflexivity.
+  - destruct a; [reflexivity|]. destruct b; [reflexivity|]. rewrite IH. reflexivity.
+  - destruct a; [reflexivity|]. rewrite IH. reflexivity.
+  - destruct b; [reflexivity|]. rewrite IH. reflexivity.
+Qed.
+
+Lemma omap_some : forall (f : Z -> Z) o s, option_map f o = Some s -> exists s0, o = Some s0 /\ s = f s0.
+Proof. intros f o s H. destruct o; cbn in H; [|discriminate]. injection H as <-. eauto. Qed.
+
+(* ---- Global, gap-open 0: no alignment scores above the cell ----------------- *)
+Section Optimal0.
+Variable w : byte -> byte -> Z.
+Hypothesis open0 : w Gap Gap = 0.
+
+Lemma opn0 : forall c, opn w c = 0.
+Proof. intros c. unfold opn. destruct c; [exact open0|reflexivity]. Qed.
+
+Lemma global_upper : forall al ra rb p s,
+  consumes al = (length ra, length rb) ->
+  fscore w p (rev ra) (rev rb) al = Some s ->
+  s <= fst (pcell w clamp_none ra rb).
+Proof.
+  induction al as [|st al IH] using rev_ind; intros ra rb p s Hc Hs.
+  - cbn in Hc. destruct ra; destruct rb; try discriminate. cbn in Hs. injection Hs as <-. cbn. lia.
+  - destruct (consumes al) as [i j] eqn:E.
+    rewrite (consumes_snoc al st i j E) in Hc. destruct st.
+    + rewrite fscore_snoc_none in Hs. discriminate.
+    + destruct ra as [|x ra]; [discriminate|]. destruct rb as [|y rb]; [discriminate|].
+      cbn [length] in Hc. injection Hc as Hi Hj. subst i j.
+      cbn [rev] in Hs. rewrite fscore_snoc_match in Hs by (rewrite E, !rev_length; reflexivity).
+      apply omap_some in Hs. destruct Hs as (s0 & Hs0 & ->). cbv beta.
+      pose proof (IH ra rb p s0 eq_refl Hs0) as Hle.
+      rewrite pcell_cons_cons. rewrite clamp_none_id.
+      match goal with |- _ <= fst (decide ?m ?d ?i) => pose proof (decide_max m d i) end. lia.
+    + destruct ra as [|x ra]; [discriminate|].
+      cbn [length] in Hc. injection Hc as Hi Hj. subst i j.
+      cbn [rev] in Hs. rewrite fscore_snoc_del in Hs by (rewrite E, !rev_length; reflexivity).
+      apply omap_some in Hs. destruct Hs as (s0 & Hs0 & ->). cbv beta.
+      pose proof (IH ra rb p s0 eq_refl Hs0) as Hle.
+      unfold cdel. rewrite opn0. destruct rb as [|y rb].
+      * rewrite pcell_cons_nil. rewrite clamp_none_id. cbn [fst]. rewrite opn0. lia.
+      * rewrite pcell_cons_cons. rewrite clamp_none_id. rewrite !opn0.
+        match goal with |- _ <= fst (decide ?m ?d ?i) => pose proof (decide_max m d i) end. lia.
+    + destruct rb as [|y rb]; [destruct ra; discriminate|].
+      cbn [length] in Hc. injection Hc as Hi Hj. subst i j.
+      cbn [rev] in Hs. rewrite fscore_snoc_ins in Hs by (rewrite E, !rev_length; reflexivity).
+      apply omap_some in Hs. destruct Hs as (s0 & Hs0 & ->). cbv beta.
+      pose proof (IH ra rb p s0 eq_refl Hs0) as Hle.
+      unfold cins. rewrite opn0. destruct ra as [|x ra].
+      * rewrite pcell_nil_cons. rewrite clamp_none_id. cbn [fst]. rewrite opn0. lia.
+      * rewrite pcell_cons_cons. rewrite clamp_none_id. rewrite !opn0.
+        match goal with |- _ <= fst (decide ?m ?d ?i) => pose proof (decide_max m d i) end. lia.
+Qed.
+
+End Optimal0.
+
+Lemma o2o_ok : forall o s, o2o o = Ok s -> o = Some s.
+Proof. intros o s H. destruct o; cbn in H; [injection H as <-; reflexivity|discriminate]. Qed.
+
+Theorem global_optimal0_g : forall g a b, covers_g g a b -> gap_open_g g = Ok 0 ->
+  exists gs, global_score_g g a b = Ok gs /\
+    forall al s, consumes al = (length a, length b) -> score_g g a b al = Ok s -> s <= gs.
+Proof.
+  intros g a b Hcov Hopen. destruct (global_g_run g a b Hcov) as (al0 & Hr & _ & _).
+  exists (fst (pcell (weights g) clamp_none (rev a) (rev b))). split.
+  - unfold global_score_g. rewrite Hr. reflexivity.
+  - intros al s Hc Hs. unfold score_g in Hs.
+    rewrite (score_from_fscore (weights g) g al SNone a b (covers_agrees g a b Hcov)) in Hs.
+    apply o2o_ok in Hs.
+    apply (global_upper (weights g)) with (al := al) (p := SNone).
+    + unfold weights. unfold gap_open_g in Hopen. rewrite Hopen. reflexivity.
+    + rewrite !rev_length. exact Hc.
+    + rewrite !rev_involutive. exact Hs.
+Qed.
+
+(* ======================================================================== *)
+(* Local                                                                        *)
+Lemma clamp_local_cases : forall c,
+  (clamp_local c = c /\ 0 <= fst c) \/ (clamp_local c = (0, SNone) /\ fst c < 0).
+Proof.
+  intros c. unfold clamp_local. destruct (Z.ltb_spec (fst c) 0); [right|left]; split; (reflexivity || lia).
+Qed.
+
+Lemma clamp_local_pos : forall c, 0 < fst (clamp_local c) -> clamp_local c = c.
+Proof.
+  intros c H. destruct (clamp_local_cases c) as [[E _]|[E _]]; [exact E|].
+  rewrite E in H. cbn in H. lia.
+Qed.
+
+Lemma clamp_local_ge : forall c, fst c <= fst (clamp_local c) /\ 0 <= fst (clamp_local c).
+Proof.
+  intros c. destruct (clamp_local_cases c) as [[E H]|[E H]]; rewrite E; cbn [fst]; lia.
+Qed.
+
+Lemma decide_snd : forall m d i,
+  match snd (decide m d i) with
+  | SMatch => fst (decide m d i) = m
+  | SDel => fst (decide m d i) = d
+  | SIns => fst (decide m d i) = i
+  | SNone => False
+  end.
+Proof.
+  intros m d i. destruct (decide_cases m d i) as [[E _]|[[E _]|[E _]]]; rewrite E; reflexivity.
+Qed.
+
+Section LocalPath.
+Variable w : byte -> byte -> Z.
+Notation lc := (pcell w clamp_local).
+
+Lemma lc_nonneg : forall ra rb, 0 <= fst (lc ra rb).
+Proof.
+  intros ra rb. destruct ra as [|x ra]; destruct rb as [|y rb].
+  - cbn. lia.
+  - rewrite pcell_nil_cons. apply clamp_local_ge.
+  - rewrite pcell_cons_nil. apply clamp_local_ge.
+  - rewrite pcell_cons_cons. apply clamp_local_ge.
+Qed.
+
+(* the traceback of Local from cell (ra, rb): the steps, and the cell it stops at *)
+Inductive ptrl : bytes -> bytes -> list step -> bytes -> bytes -> Prop :=
+| ptrl_stop : forall ra rb, fst (lc ra rb) = 0 -> ptrl ra rb [] ra rb
+| ptrl_match : forall x ra y rb al ra0 rb0,
+    0 < fst (lc (x :: ra) (y :: rb)) -> snd (lc (x :: ra) (y :: rb)) = SMatch ->
+    ptrl ra rb al ra0 rb0 -> ptrl (x :: ra) (y :: rb) (al ++ [SMatch]) ra0 rb0
+| ptrl_del : forall x ra rb al ra0 rb0,
+    0 < fst (lc (x :: ra) rb) -> snd (lc (x :: ra) rb) = SDel ->
+    ptrl ra rb al ra0 rb0 -> ptrl (x :: ra) rb (al ++ [SDel]) ra0 rb0
+| ptrl_ins : forall ra y rb al ra0 rb0,
+    0 < fst (lc ra (y :: rb)) -> snd (lc ra (y :: rb)) = SIns ->
+    ptrl ra rb al ra0 rb0 -> ptrl ra (y :: rb) (al ++ [SIns]) ra0 rb0.
+
+Lemma ptrl_exists : forall n ra rb, (length ra + length rb <= n)%nat ->
+  exists al ra0 rb0, ptrl ra rb al ra0 rb0.
+Proof.
+  induction n as [|n IH]; intros ra rb Hn.
+  - destruct ra; destruct rb; cbn in Hn; try lia.
+    exists [], [], []. apply ptrl_stop. reflexivity.
+  - pose proof (lc_nonneg ra rb) as Hnn.
+    destruct (Z.eq_dec (fst (lc ra rb)) 0) as [Hz|Hz].
+    { exists [], ra, rb. apply ptrl_stop. exact Hz. }
+    assert (Hpos : 0 < fst (lc ra rb)) by lia. clear Hz Hnn.
+    destruct ra as [|x ra]; destruct rb as [|y rb].
+    + cbn in Hpos. lia.
+    + destruct (IH [] rb) as (al & ra0 & rb0 & Hp); [cbn in *; lia|].
+      exists (al ++ [SIns]), ra0, rb0. apply ptrl_ins; [exact Hpos| |exact Hp].
+      rewrite pcell_nil_cons in *. rewrite (clamp_local_pos _ Hpos). reflexivity.
+    + destruct (IH ra []) as (al & ra0 & rb0 & Hp); [cbn in *; lia|].
+      exists (al ++ [SDel]), ra0, rb0. apply ptrl_del; [exact Hpos| |exact Hp].
+      rewrite pcell_cons_nil in *. rewrite (clamp_local_pos _ Hpos). reflexivity.
+    + pose proof Hpos as Hpos'. rewrite pcell_cons_cons in Hpos'.
+      pose proof (clamp_local_pos _ Hpos') as Hcl.
+      assert (Hcell : lc (x :: ra) (y :: rb) = 
+        decide (fst (lc ra rb) + w x y)
+               (fst (lc ra (y :: rb)) + w x Gap + opn w (negb (is_del (snd (lc ra (y :: rb))))))
+               (fst (lc (x :: ra) rb) + w Gap y + opn w (negb (is_ins (snd (lc (x :: ra) rb))))))
+        by (rewrite pcell_cons_cons; exact Hcl).
+      match type of Hcell with _ = decide ?m ?d ?i => pose proof (decide_snd m d i) as Hsnd end.
+      rewrite <- Hcell in Hsnd.
+      destruct (snd (lc (x :: ra) (y :: rb))) eqn:Es; [contradiction| | |].
+      * destruct (IH ra rb) as (al & ra0 & rb0 & Hp); [cbn in *; lia|].
+        exists (al ++ [SMatch]), ra0, rb0. apply ptrl_match; assumption.
+      * destruct (IH ra (y :: rb)) as (al & ra0 & rb0 & Hp); [cbn in *; lia|].
+        exists (al ++ [SDel]), ra0, rb0. apply ptrl_del; assumption.
+      * destruct (IH (x :: ra) rb) as (al & ra0 & rb0 & Hp); [cbn in *; lia|].
+        exists (al ++ [SIns]), ra0, rb0. apply ptrl_ins; assumption.
+Qed.
+
+(* ---- the executable traceback follows it ---------------------------------- *)
+Definition unmove (bn i : Z) (s : step) : Z :=
+  match s with SMatch => i + (bn + 1) | SDel => i + bn | SIns => i + 1 | SNone => i end.
+
+Lemma trace_l_zero : forall f bl bn last acc, trace_l f bl bn 0 last acc = Ok (acc, last).
+Proof. destruct f; reflexivity. Qed.
+
+Lemma trace_l_stop : forall f bl bn i last acc st,
+  0 < i -> nth_error bl (Z.to_nat i) = Some (0, st) ->
+  trace_l (S f) bl bn i last acc = Ok (acc, last).
+Proof.
+  intros f bl bn i last acc st Hi Hn. cbn [trace_l]. unfold cell in *.
+  destruct (Z.leb_spec i 0); [lia|]. rewrite Hn. reflexivity.
+Qed.
+
+Lemma trace_l_step : forall f bl bn i last acc s st,
+  0 < i -> 0 < s -> nth_error bl (Z.to_nat i) = Some (s, st) ->
+  trace_l (S f) bl bn i last acc = trace_l f bl bn (move bn i st) i (st :: acc).
+Proof.
+  intros f bl bn i last acc s st Hi Hs Hn. cbn [trace_l]. unfold cell in *.
+  destruct (Z.leb_spec i 0); [lia|]. rewrite Hn.
+  destruct (Z.ltb_spec s 0); [lia|]. destruct (Z.eqb_spec s 0); [lia|]. reflexivity.
+Qed.
+
+Definition last_of (bn : Z) (al : list step) (ra0 rb0 : bytes) (last0 : Z) : Z :=
+  match al with [] => last0 | s :: _ => unmove bn (idx bn ra0 rb0) s end.
+
+Lemma trace_l_ptrl : forall a b ra rb al ra0 rb0, ptrl ra rb al ra0 rb0 ->
+  forall pa pb, rev a = pa ++ ra -> rev b = pb ++ rb ->
+  forall fuel last0 acc, (length ra + length rb <= fuel)%nat ->
+  trace_l fuel (concat (table_spec w clamp_local a b)) (bn_of b) (idx (bn_of b) ra rb) last0 acc
+  = Ok (al ++ acc, last_of (bn_of b) al ra0 rb0 last0).
+Proof.
+  intros a b ra rb al ra0 rb0 Hp.
+  assert (Hbn : 0 < bn_of b) by (unfold bn_of; lia).
+  induction Hp as [ra rb Hz|x ra y rb al ra0 rb0 Hpos Hs Hp IH|x ra rb al ra0 rb0 Hpos Hs Hp IH
+                  |ra y rb al ra0 rb0 Hpos Hs Hp IH];
+    intros pa pb Ha Hb fuel last0 acc Hf.
+  - cbn [app last_of].
+    destruct (Nat.eq_dec (length ra + length rb) 0) as [E|E].
+    + destruct ra; destruct rb; cbn in E; try lia. apply trace_l_zero.
+    + destruct fuel as [|f]; [lia|].
+      pose proof (blocks_lookup w clamp_local a b pa ra pb rb Ha Hb) as Hl.
+      rewrite (surjective_pairing (lc ra rb)), Hz in Hl.
+      assert (Hip : 0 < idx (bn_of b) ra rb) by (apply idx_pos; [exact Hbn|lia]).
+      apply (trace_l_stop _ _ _ _ _ _ _ Hip Hl).
+  - destruct fuel as [|f]; [cbn in Hf; lia|].
+    pose proof (blocks_lookup w clamp_local a b pa (x :: ra) pb (y :: rb) Ha Hb) as Hl.
+    rewrite (surjective_pairing (lc (x :: ra) (y :: rb))), Hs in Hl.
+    assert (Hip : 0 < idx (bn_of b) (x :: ra) (y :: rb)) by (apply idx_pos; [exact Hbn|cbn; lia]).
+    rewrite (trace_l_step _ _ _ _ _ _ _ _ Hip Hpos Hl).
+    assert (Hmv : move (bn_of b) (idx (bn_of b) (x :: ra) (y :: rb)) SMatch = idx (bn_of b) ra rb)
+      by (unfold move, idx; cbn [length]; rewrite !Nat2Z.inj_succ; lia).
+    rewrite Hmv.
+    rewrite (IH (pa ++ [x]) (pb ++ [y])); [| | |cbn in Hf; lia]; try (rewrite <- app_assoc; assumption).
+    rewrite <- app_assoc. f_equal. f_equal.
+    inversion Hp; subst; cbn [app last_of]; try reflexivity; try (destruct al0; reflexivity).
+    unfold unmove. rewrite <- Hmv. unfold move. lia.
+  - destruct fuel as [|f]; [cbn in Hf; lia|].
+    pose proof (blocks_lookup w clamp_local a b pa (x :: ra) pb rb Ha Hb) as Hl.
+    rewrite (surjective_pairing (lc (x :: ra) rb)), Hs in Hl.
+    assert (Hip : 0 < idx (bn_of b) (x :: ra) rb) by (apply idx_pos; [exact Hbn|cbn; lia]).
+    rewrite (trace_l_step _ _ _ _ _ _ _ _ Hip Hpos Hl).
+    assert (Hmv : move (bn_of b) (idx (bn_of b) (x :: ra) rb) SDel = idx (bn_of b) ra rb)
+      by (unfold move, idx; cbn [length]; rewrite !Nat2Z.inj_succ; lia).
+    rewrite Hmv.
+    rewrite (IH (pa ++ [x]) pb); [| |assumption|cbn in Hf; lia]; try (rewrite <- app_assoc; assumption).
+    rewrite <- app_assoc. f_equal. f_equal.
+    inversion Hp; subst; cbn [app last_of]; try reflexivity; try (destruct al0; reflexivity).
+    unfold unmove. rewrite <- Hmv. unfold move. lia.
+  - destruct fuel as [|f]; [cbn in Hf; lia|].
+    pose proof (blocks_lookup w clamp_local a b pa ra pb (y :: rb) Ha Hb) as Hl.
+    rewrite (surjective_pairing (lc ra (y :: rb))), Hs in Hl.
+    assert (Hip : 0 < idx (bn_of b) ra (y :: rb)) by (apply idx_pos; [exact Hbn|cbn; lia]).
+    rewrite (trace_l_step _ _ _ _ _ _ _ _ Hip Hpos Hl).
+    assert (Hmv : move (bn_of b) (idx (bn_of b) ra (y :: rb)) SIns = idx (bn_of b) ra rb)
+      by (unfold move, idx; cbn [length]; rewrite !Nat2Z.inj_succ; lia).
+    rewrite Hmv.
+    rewrite (IH pa (pb ++ [y])); [|assumption| |cbn in Hf; lia]; try (rewrite <- app_assoc; assumption).
+    rewrite <- app_assoc. f_equal. f_equal.
+    inversion Hp; subst; cbn [app last_of]; try reflexivity; try (destruct al0; reflexivity).
+    unfold unmove. rewrite <- Hmv. unfold move. lia.
+Qed.
+
+End LocalPath.
+
+(* ---- argmax --------------------------------------------------------------- *)
+Lemma argmax_from_spec : forall l seen imax best cb,
+  0 <= imax -> nth_error seen (Z.to_nat imax) = Some cb -> fst cb = best ->
+  (forall c, In c seen -> fst c <= best) ->
+  0 <= fst (argmax_from l (Z.of_nat (length seen)) imax best)
+  /\ (exists c, nth_error (seen ++ l) (Z.to_nat (fst (argmax_from l (Z.of_nat (length seen)) imax best))) = Some c
+                /\ fst c = snd (argmax_from l (Z.of_nat (length seen)) imax best))
+  /\ (forall c, In c (seen ++ l) -> fst c <= snd (argmax_from l (Z.of_nat (length seen)) imax best)).
+Proof.
+  induction l as [|c l IH]; intros seen imax best cb H0 Hn Hb Hall.
+  - cbn [argmax_from fst snd]. rewrite app_nil_r. split; [exact H0|]. split; [eauto|exact Hall].
+  - cbn [argmax_from].
+    assert (Hlen : Z.of_nat (length seen) + 1 = Z.of_nat (length (seen ++ [c])))
+      by (rewrite app_length; cbn; lia).
+    replace (seen ++ c :: l) with ((seen ++ [c]) ++ l) by (rewrite <- app_assoc; reflexivity).
+    rewrite Hlen. destruct (Z.gtb_spec (fst c) best) as [Hgt|Hle].
+    + apply (IH (seen ++ [c]) (Z.of_nat (length seen)) (fst c) c).
+      * lia.
+      * rewrite Nat2Z.id, nth_error_app2 by lia. rewrite Nat.sub_diag. reflexivity.
+      * reflexivity.
+      * intros c' Hin. apply in_app_or in Hin. destruct Hin as [Hin|[<-|[]]]; [|lia].
+        specialize (Hall c' Hin). lia.
+    + apply (IH (seen ++ [c]) imax best cb).
+      * exact H0.
+      * rewrite nth_error_app1; [exact Hn|]. apply nth_error_Some. rewrite Hn. discriminate.
+      * exact Hb.
+      * intros c' Hin. apply in_app_or in Hin. destruct Hin as [Hin|[<-|[]]]; [|lia].
+        apply Hall. exact Hin.
+Qed.
+
+Lemma argmax_spec : forall bl, bl <> [] ->
+  0 <= fst (argmax bl)
+  /\ (exists c, nth_error bl (Z.to_nat (fst (argmax bl))) = Some c /\ fst c = snd (argmax bl))
+  /\ (forall c, In c bl -> fst c <= snd (argmax bl)).
+Proof.
+  intros bl Hne. destruct bl as [|c0 r]; [contradiction|].
+  unfold argmax. cbn [argmax_from]. destruct (Z.gtb_spec (fst c0) (fst c0)); [lia|].
+  change (0 + 1) with (Z.of_nat (length [c0])).
+  change (c0 :: r) with ([c0] ++ r).
+  apply (argmax_from_spec r [c0] 0 (fst c0) c0).
+  - lia.
+  - reflexivity.
+  - reflexivity.
+  - intros c [<-|[]]. lia.
+Qed.
+
+(* every block index is the index of a pair of prefixes *)
+Lemma idx_decomp : forall a b k, (k < S (length a) * S (length b))%nat ->
+  exists pa ra pb rb, rev a = pa ++ ra /\ rev b = pb ++ rb /\ Z.of_nat k = idx (bn_of b) ra rb.
+Proof.
+  intros a b k Hk. set (n := S (length b)) in *.
+  assert (Hn : n <> 0%nat) by (unfold n; lia).
+  pose proof (Nat.div_mod k n Hn) as Hdm.
+  pose proof (Nat.mod_upper_bound k n Hn) as Hj.
+  assert (Hi : (k / n < S (length a))%nat) by (apply Nat.div_lt_upper_bound; [exact Hn|lia]).
+  set (i := (k / n)%nat) in *. set (j := (k mod n)%nat) in *.
+  exists (rev (skipn i a)), (rev (firstn i a)), (rev (skipn j b)), (rev (firstn j b)).
+  split; [rewrite <- rev_app_distr, firstn_skipn; reflexivity|].
+  split; [rewrite <- rev_app_distr, firstn_skipn; reflexivity|].
+  unfold idx, bn_of. rewrite !rev_length, !firstn_length.
+  rewrite (Nat.min_l i) by lia. rewrite (Nat.min_l j) by (unfold n in Hj; lia).
+  rewrite Hdm at 1. unfold n. lia.
+Qed.
+
+Lemma tail_length : forall {A} (l p t : list A), rev l = p ++ t -> (length t <= length l)%nat.
+Proof. intros A l p t H. rewrite <- (rev_length l), H, app_length. lia. Qed.
+
+(* ---- what Local computes, for any covering scorer ---------------------------- *)
+Definition local_result (w : byte -> byte -> Z) (bn : Z) (ra rb : bytes) (al : list step)
+  (ra0 rb0 : bytes) : list step * Z * Z * Z :=
+  let s := fst (pcell w clamp_local ra rb) in
+  if s =? 0 then ([], -1, -1, 0)
+  else let last := last_of bn al ra0 rb0 (idx bn ra rb) in
+       (al, Z.quot last bn - 1, Z.rem last bn - 1, s).
+
+Lemma local_g_run : forall g a b, covers_g g a b ->
+  exists pa ra pb rb al ra0 rb0,
+    rev a = pa ++ ra /\ rev b = pb ++ rb
+    /\ ptrl (weights g) ra rb al ra0 rb0
+    /\ (forall pa' ra' pb' rb', rev a = pa' ++ ra' -> rev b = pb' ++ rb' ->
+          fst (pcell (weights g) clamp_local ra' rb') <= fst (pcell (weights g) clamp_local ra rb))
+    /\ local_g g a b = Ok (local_result (weights g) (bn_of b) ra rb al ra0 rb0).
+Proof.
+  intros g a b Hcov. pose proof (covers_agrees g a b Hcov) as Hag.
+  set (w := weights g) in *.
+  unfold local_g. rewrite (blocks_ok w clamp_local g a b Hag). cbn [obind].
+  set (bl := concat (table_spec w clamp_local a b)).
+  assert (Hlen : length bl = (S (length a) * S (length b))%nat) by apply blocks_length.
+  assert (Hne : bl <> []) by (intros E; rewrite E in Hlen; cbn in Hlen; lia).
+  destruct (argmax_spec bl Hne) as (H0 & (c & Hc & Hcs) & Hmax).
+  destruct (argmax bl) as [imax smax] eqn:Earg. cbn [fst snd] in *.
+  assert (Hk : (Z.to_nat imax < length bl)%nat) by (apply nth_error_Some; rewrite Hc; discriminate).
+  rewrite Hlen in Hk.
+  destruct (idx_decomp a b (Z.to_nat imax) Hk) as (pa & ra & pb & rb & Ha & Hb & Hidx).
+  rewrite Z2Nat.id in Hidx by exact H0.
+  pose proof (blocks_lookup w clamp_local a b pa ra pb rb Ha Hb) as Hl.
+  fold bl in Hl. rewrite <- Hidx, Hc in Hl. injection Hl as Hcell. subst c.
+  destruct (ptrl_exists w _ ra rb (le_n _)) as (al & ra0 & rb0 & Hp).
+  exists pa, ra, pb, rb, al, ra0, rb0.
+  split; [exact Ha|]. split; [exact Hb|]. split; [exact Hp|]. split.
+  - intros pa' ra' pb' rb' Ha' Hb'. rewrite Hcs. apply Hmax.
+    pose proof (blocks_lookup w clamp_local a b pa' ra' pb' rb' Ha' Hb') as Hl'.
+    apply nth_error_In in Hl'. exact Hl'.
+  - fold (bn_of b). rewrite Hidx.
+    pose proof (tail_length _ _ _ Ha). pose proof (tail_length _ _ _ Hb).
+    rewrite (trace_l_ptrl w a b ra rb al ra0 rb0 Hp pa pb Ha Hb) by (rewrite Hlen; nia).
+    cbn [obind]. rewrite app_nil_r. unfold local_result. rewrite Hcs.
+    destruct (smax =? 0).
+    + assert (bn_of b <> 0) by (unfold bn_of; lia).
+      rewrite Z.quot_0_l, Z.rem_0_l by assumption. reflexivity.
+    + reflexivity.
+Qed.
+
+(* ---- Local validity under non-positive gap scores ---------------------------- *)
+Section LocalValid.
+Variable w : byte -> byte -> Z.
+Notation lc := (pcell w clamp_local).
+Hypothesis open_nonpos : w Gap Gap <= 0.
+
+Lemma opn_nonpos : forall c, opn w c <= 0.
+Proof. intros c. unfold opn. destruct c; [exact open_nonpos|lia]. Qed.
+
+Lemma col0_zero : forall ra, (forall x, In x ra -> w x Gap <= 0) -> fst (lc ra []) = 0.
+Proof.
+  induction ra as [|x ra IH]; intros H; [reflexivity|].
+  rewrite pcell_cons_nil. rewrite IH by (intros u Hu; apply H; right; exact Hu).
+  pose proof (H x (or_introl eq_refl)). pose proof (opn_nonpos (@is_nil N ra)).
+  match goal with |- fst (clamp_local ?c) = 0 => destruct (clamp_local_cases c) as [[E Hc]|[E Hc]]; rewrite E end;
+    cbn [fst] in *; lia.
+Qed.
+
+Lemma row0_zero : forall rb, (forall y, In y rb -> w Gap y <= 0) -> fst (lc [] rb) = 0.
+Proof.
+  induction rb as [|y rb IH]; intros H; [reflexivity|].
+  rewrite pcell_nil_cons. rewrite IH by (intros u Hu; apply H; right; exact Hu).
+  pose proof (H y (or_introl eq_refl)). pose proof (opn_nonpos (@is_nil N rb)).
+  match goal with |- fst (clamp_local ?c) = 0 => destruct (clamp_local_cases c) as [[E Hc]|[E Hc]]; rewrite E end;
+    cbn [fst] in *; lia.
+Qed.
+
+Lemma lc_pos_cases : forall x ra y rb, 0 < fst (lc (x :: ra) (y :: rb)) ->
+  match snd (lc (x :: ra) (y :: rb)) with
+  | SMatch => fst (lc (x :: ra) (y :: rb)) = fst (lc ra rb) + w x y
+  | SDel => fst (lc (x :: ra) (y :: rb)) =
+            fst (lc ra (y :: rb)) + w x Gap + opn w (negb (is_del (snd (lc ra (y :: rb)))))
+  | SIns => fst (lc (x :: ra) (y :: rb)) =
+            fst (lc (x :: ra) rb) + w Gap y + opn w (negb (is_ins (snd (lc (x :: ra) rb))))
+  | SNone => False
+  end.
+Proof.
+  intros x ra y rb H. pose proof H as H'. rewrite pcell_cons_cons in H'.
+  apply clamp_local_pos in H'. rewrite pcell_cons_cons. rewrite H'. apply decide_snd.
+Qed.
+
+Lemma hd_snoc : forall (al : list step) s, hd SNone al = SMatch -> hd SNone (al ++ [s]) = SMatch.
+Proof. intros al s H. destruct al; [discriminate|exact H]. Qed.
+
+Lemma ptrl_valid : forall ra rb al ra0 rb0, ptrl w ra rb al ra0 rb0 ->
+  (forall x, In x ra -> w x Gap <= 0) -> (forall y, In y rb -> w Gap y <= 0) ->
+  exists pa pb, ra = pa ++ ra0 /\ rb = pb ++ rb0
+    /\ consumes al = (length pa, length pb)
+    /\ fscore w SNone (rev pa) (rev pb) al = Some (fst (lc ra rb))
+    /\ (0 < fst (lc ra rb) -> lastd SNone al = snd (lc ra rb) /\ hd SNone al = SMatch)
+    /\ (fst (lc ra rb) = 0 -> al = [])
+    /\ fst (lc ra0 rb0) = 0.
+Proof.
+  intros ra rb al ra0 rb0 Hp.
+  induction Hp as [ra rb Hz|x ra y rb al ra0 rb0 Hpos Hs Hp IH|x ra rb al ra0 rb0 Hpos Hs Hp IH
+                  |ra y rb al ra0 rb0 Hpos Hs Hp IH]; intros Hd Hi.
+  - exists [], []. split; [reflexivity|]. split; [reflexivity|]. split; [reflexivity|].
+    split; [cbn; rewrite Hz; reflexivity|]. split; [intros H; rewrite Hz in H; lia|].
+    split; [reflexivity|exact Hz].
+  - destruct IH as (pa & pb & Ea & Eb & Hc & Hf & Hl & Hn & Hz0).
+    { intros u Hu. apply Hd. right. exact Hu. }
+    { intros u Hu. apply Hi. right. exact Hu. }
+    pose proof (lc_pos_cases x ra y rb Hpos) as Hval. rewrite Hs in Hval.
+    exists (x :: pa), (y :: pb). subst ra rb. repeat split; try reflexivity.
+    + rewrite (consumes_snoc al SMatch _ _ Hc). reflexivity.
+    + cbn [rev]. rewrite fscore_snoc_match by (rewrite Hc, !rev_length; reflexivity).
+      rewrite Hf, Hval. reflexivity.
+    + rewrite lastd_snoc, Hs. reflexivity.
+    + pose proof (lc_nonneg w (pa ++ ra0) (pb ++ rb0)).
+      destruct (Z.eq_dec (fst (lc (pa ++ ra0) (pb ++ rb0))) 0) as [E|E].
+      * rewrite (Hn E). reflexivity.
+      * apply hd_snoc. apply Hl. lia.
+    + intros E. rewrite E in Hpos. lia.
+    + exact Hz0.
+  - pose proof (opn_nonpos (negb (is_del (snd (lc ra rb))))) as Hon.
+    pose proof (Hd x (or_introl eq_refl)) as Hx.
+    destruct rb as [|y rb].
+    { rewrite (col0_zero (x :: ra) Hd) in Hpos. lia. }
+    pose proof (lc_pos_cases x ra y rb Hpos) as Hval. rewrite Hs in Hval.
+    assert (Hpp : 0 < fst (lc ra (y :: rb))) by lia.
+    destruct IH as (pa & pb & Ea & Eb & Hc & Hf & Hl & Hn & Hz0).
+    { intros u Hu. apply Hd. right. exact Hu. }
+    { exact Hi. }
+    destruct (Hl Hpp) as [Hl1 Hl2].
+    exists (x :: pa), pb. rewrite Ea at 1. rewrite Eb at 1. repeat split; try reflexivity.
+    + rewrite (consumes_snoc al SDel _ _ Hc). reflexivity.
+    + cbn [rev]. rewrite fscore_snoc_del by (rewrite Hc, !rev_length; reflexivity).
+      rewrite Hf, Hval. cbn [option_map]. f_equal. unfold cdel. rewrite Hl1. lia.
+    + rewrite lastd_snoc, Hs. reflexivity.
+    + apply hd_snoc. exact Hl2.
+    + intros E. rewrite E in Hpos. lia.
+    + exact Hz0.
+  - pose proof (opn_nonpos (negb (is_ins (snd (lc ra rb))))) as Hon.
+    pose proof (Hi y (or_introl eq_refl)) as Hy.
+    destruct ra as [|x ra].
+    { rewrite (row0_zero (y :: rb) Hi) in Hpos. lia. }
+    pose proof (lc_pos_cases x ra y rb Hpos) as Hval. rewrite Hs in Hval.
+    assert (Hpp : 0 < fst (lc (x :: ra) rb)) by lia.
+    destruct IH as (pa & pb & Ea & Eb & Hc & Hf & Hl & Hn & Hz0).
+    { exact Hd. }
+    { intros u Hu. apply Hi. right. exact Hu. }
+    destruct (Hl Hpp) as [Hl1 Hl2].
+    exists pa, (y :: pb). rewrite Ea at 1. rewrite Eb at 1. repeat split; try reflexivity.
+    + rewrite (consumes_snoc al SIns _ _ Hc). reflexivity.
+    + cbn [rev]. rewrite fscore_snoc_ins by (rewrite Hc, !rev_length; reflexivity).
+      rewrite Hf, Hval. cbn [option_map]. f_equal. unfold cins. rewrite Hl1. lia.
+    + rewrite lastd_snoc, Hs. reflexivity.
+    + apply hd_snoc. exact Hl2.
+    + intros E. rewrite E in Hpos. lia.
+    + exact Hz0.
+Qed.
+
+End LocalValid.
+
+(* ---- assembling Local's validity ------------------------------------------- *)
+Lemma fscore_app_ignore : forall w al p a1 b1 a2 b2, consumes al = (length a1, length b1) ->
+  fscore w p (a1 ++ a2) (b1 ++ b2) al = fscore w p a1 b1 al.
+Proof.
+  intros w. induction al as [|s r IH]; intros p a1 b1 a2 b2 Hc; [reflexivity|].
+  cbn [consumes] in Hc. destruct (consumes r) as [i j] eqn:E. destruct s.
+  - reflexivity.
+  - destruct a1 as [|x a1]; [discriminate|]. destruct b1 as [|y b1]; [discriminate|].
+    cbn in Hc. injection Hc as Hi Hj. subst i j.
+    cbn [app fscore]. rewrite (IH SMatch a1 b1 a2 b2 eq_refl). reflexivity.
+  - destruct a1 as [|x a1]; [discriminate|].
+    cbn in Hc. injection Hc as Hi Hj. subst i j.
+    cbn [app fscore]. rewrite (IH SDel a1 b1 a2 b2 eq_refl). reflexivity.
+  - destruct b1 as [|y b1]; [destruct a1; discriminate|].
+    cbn in Hc. injection Hc as Hi Hj. subst i j.
+    cbn [app fscore]. rewrite (IH SIns a1 b1 a2 b2 eq_refl). reflexivity.
+Qed.
+
+Lemma skipn_app_len : forall {A} (l1 l2 : list A), skipn (length l1) (l1 ++ l2) = l2.
+Proof. induction l1; intros; cbn; [reflexivity|apply IHl1]. Qed.
+
+Lemma in_skipn : forall {A} n (l : list A) x, In x (skipn n l) -> In x l.
+Proof. induction n; intros l x H; [exact H|]. destruct l; [exact H|]. right. apply IHn. exact H. Qed.
+
+Lemma agrees_incl : forall w g a b a' b', incl a' a -> incl b' b ->
+  agrees w g a b -> agrees w g a' b'.
+Proof.
+  intros w g a b a' b' Ha Hb H x y Hx Hy. apply H.
+  - destruct Hx as [Hx|Hx]; [left; exact Hx|right; apply Ha; exact Hx].
+  - destruct Hy as [Hy|Hy]; [left; exact Hy|right; apply Hb; exact Hy].
+Qed.
+
+(* a = (first ++ middle) ++ rest when rev a = rest' ++ middle' ++ first' *)
+Lemma rev_split3 : forall {A} (l p m t : list A), rev l = p ++ m ++ t ->
+  l = (rev t ++ rev m) ++ rev p.
+Proof.
+  intros A l p m t H. rewrite <- (rev_involutive l), H, !rev_app_distr. reflexivity.
+Qed.
+
+Lemma quot_rem_cell : forall bn i j, 0 <= i -> 0 <= j -> j + 1 < bn ->
+  Z.quot ((i + 1) * bn + (j + 1)) bn - 1 = i /\ Z.rem ((i + 1) * bn + (j + 1)) bn - 1 = j.
+Proof.
+  intros bn i j Hi Hj Hb.
+  assert (0 <= (i + 1) * bn) by (apply Z.mul_nonneg_nonneg; lia).
+  rewrite Z.quot_div_nonneg, Z.rem_mod_nonneg by lia.
+  rewrite <- (Z.div_unique ((i + 1) * bn + (j + 1)) bn (i + 1) (j + 1)) by lia.
+  rewrite <- (Z.mod_unique ((i + 1) * bn + (j + 1)) bn (i + 1) (j + 1)) by lia.
+  lia.
+Qed.
+
+Theorem local_valid_g : forall g a b, covers_g g a b -> nonpos_gaps_g g a b ->
+  exists r, local_g g a b = Ok r /\ local_answer_valid g a b r.
+Proof.
+  intros g a b Hcov [Hnd Hni]. pose proof (covers_agrees g a b Hcov) as Hag.
+  destruct (local_g_run g a b Hcov) as (pa & ra & pb & rb & al & ra0 & rb0 & Ha & Hb & Hp & _ & Hrun).
+  set (w := weights g) in *.
+  exists (local_result w (bn_of b) ra rb al ra0 rb0). split; [exact Hrun|].
+  unfold local_result. pose proof (lc_nonneg w ra rb) as Hnn.
+  destruct (Z.eqb_spec (fst (pcell w clamp_local ra rb)) 0) as [Hz|Hz].
+  { left. repeat split; reflexivity. }
+  assert (Hpos : 0 < fst (pcell w clamp_local ra rb)) by lia.
+  assert (Hopen : w Gap Gap <= 0).
+  { apply (Hnd Gap); [left; reflexivity|]. apply Hag; left; reflexivity. }
+  assert (Hd : forall x, In x ra -> w x Gap <= 0).
+  { intros x Hx. apply (Hnd x).
+    - right. apply (proj2 (in_rev a _)). rewrite Ha. apply in_or_app. right. exact Hx.
+    - apply Hag; [|left; reflexivity].
+      right. apply (proj2 (in_rev a _)). rewrite Ha. apply in_or_app. right. exact Hx. }
+  assert (Hi : forall y, In y rb -> w Gap y <= 0).
+  { intros y Hy. apply (Hni y).
+    - right. apply (proj2 (in_rev b _)). rewrite Hb. apply in_or_app. right. exact Hy.
+    - apply Hag; [left; reflexivity|].
+      right. apply (proj2 (in_rev b _)). rewrite Hb. apply in_or_app. right. exact Hy. }
+  destruct (ptrl_valid w Hopen ra rb al ra0 rb0 Hp Hd Hi)
+    as (pa1 & pb1 & Ea & Eb & Hc & Hf & Hl & _ & _).
+  destruct (Hl Hpos) as [_ Hhd].
+  destruct al as [|s0 al']; [discriminate|]. cbn [hd] in Hhd. subst s0.
+  cbn [last_of unmove].
+  pose proof (tail_length _ _ _ Ha) as Hla. pose proof (tail_length _ _ _ Hb) as Hlb.
+  rewrite Ea, app_length in Hla. rewrite Eb, app_length in Hlb.
+  assert (Hc' := Hc). cbn [consumes] in Hc'. destruct (consumes al') as [i' j'].
+  injection Hc' as Hi' Hj'.
+  assert (Hidx : idx (bn_of b) ra0 rb0 + (bn_of b + 1)
+                 = (Z.of_nat (length ra0) + 1) * bn_of b + (Z.of_nat (length rb0) + 1))
+    by (unfold idx; lia).
+  rewrite Hidx.
+  destruct (quot_rem_cell (bn_of b) (Z.of_nat (length ra0)) (Z.of_nat (length rb0)))
+    as [Hq Hr]; [lia|lia|unfold bn_of; lia|].
+  rewrite Hq, Hr.
+  right. rewrite Hc. cbn [fst snd]. rewrite !Nat2Z.id.
+  split; [exact Hpos|]. split; [lia|]. split; [lia|]. split; [lia|]. split; [lia|].
+  rewrite Ea in Ha. rewrite Eb in Hb.
+  apply rev_split3 in Ha. apply rev_split3 in Hb.
+  assert (Hsa : skipn (length ra0) a = rev pa1 ++ rev pa).
+  { rewrite Ha at 1. rewrite <- app_assoc, <- (rev_length ra0). apply skipn_app_len. }
+  assert (Hsb : skipn (length rb0) b = rev pb1 ++ rev pb).
+  { rewrite Hb at 1. rewrite <- app_assoc, <- (rev_length rb0). apply skipn_app_len. }
+  rewrite Hsa, Hsb. unfold score_g.
+  assert (Hag' : agrees w g (rev pa1 ++ rev pa) (rev pb1 ++ rev pb)).
+  { apply (agrees_incl w g a b); [| |exact Hag]; [rewrite <- Hsa|rewrite <- Hsb];
+      intros u Hu; eapply in_skipn; eauto. }
+  rewrite (score_from_fscore w g _ SNone _ _ Hag').
+  rewrite fscore_app_ignore by (rewrite Hc, !rev_length; reflexivity).
+  rewrite Hf. reflexivity.
+Qed.
+
+(* ---- Local, gap-open 0: no pair of substrings aligns above the maximum cell ---- *)
+Section LocalOptimal0.
+Variable w : byte -> byte -> Z.
+Notation lc := (pcell w clamp_local).
+Hypothesis open0 : w Gap Gap = 0.
+
+Lemma local_upper : forall al pa pb ra0 rb0 p s,
+  consumes al = (length pa, length pb) ->
+  fscore w p (rev pa) (rev pb) al = Some s ->
+  s <= fst (lc (pa ++ ra0) (pb ++ rb0)).
+Proof.
+  induction al as [|st al IH] using rev_ind; intros pa pb ra0 rb0 p s Hc Hs.
+  - cbn in Hc. destruct pa; destruct pb; try discriminate. cbn in Hs. injection Hs as <-.
+    cbn [app]. apply lc_nonneg.
+  - destruct (consumes al) as [i j] eqn:E.
+    rewrite (consumes_snoc al st i j E) in Hc. destruct st.
+    + rewrite fscore_snoc_none in Hs. discriminate.
+    + destruct pa as [|x pa]; [discriminate|]. destruct pb as [|y pb]; [discriminate|].
+      cbn [length] in Hc. injection Hc as Hi Hj. subst i j.
+      cbn [rev] in Hs. rewrite fscore_snoc_match in Hs by (rewrite E, !rev_length; reflexivity).
+      apply omap_some in Hs. destruct Hs as (s0 & Hs0 & ->). cbv beta.
+      pose proof (IH pa pb ra0 rb0 p s0 eq_refl Hs0) as Hle.
+      cbn [app]. rewrite pcell_cons_cons.
+      match goal with |- _ <= fst (clamp_local ?c) => pose proof (clamp_local_ge c) end.
+      match goal with H : fst (decide ?m ?d ?i) <= _ /\ _ |- _ => pose proof (decide_max m d i) end. lia.
+    + destruct pa as [|x pa]; [discriminate|].
+      cbn [length] in Hc. injection Hc as Hi Hj. subst i j.
+      cbn [rev] in Hs. rewrite fscore_snoc_del in Hs by (rewrite E, !rev_length; reflexivity).
+      apply omap_some in Hs. destruct Hs as (s0 & Hs0 & ->). cbv beta.
+      pose proof (IH pa pb ra0 rb0 p s0 eq_refl Hs0) as Hle.
+      unfold cdel. rewrite (opn0 w open0). cbn [app]. destruct (pb ++ rb0) as [|y rbb].
+      * rewrite pcell_cons_nil.
+        match goal with |- _ <= fst (clamp_local ?c) => pose proof (clamp_local_ge c) end.
+        cbn [fst] in *. rewrite (opn0 w open0) in *. lia.
+      * rewrite pcell_cons_cons.
+        match goal with |- _ <= fst (clamp_local ?c) => pose proof (clamp_local_ge c) end.
+        match goal with H : fst (decide ?m ?d ?i) <= _ /\ _ |- _ => pose proof (decide_max m d i) end.
+        rewrite !(opn0 w open0) in *. lia.
+    + destruct pb as [|y pb]; [destruct pa; discriminate|].
+      cbn [length] in Hc. injection Hc as Hi Hj. subst i j.
+      cbn [rev] in Hs. rewrite fscore_snoc_ins in Hs by (rewrite E, !rev_length; reflexivity).
+      apply omap_some in Hs. destruct Hs as (s0 & Hs0 & ->). cbv beta.
+      pose proof (IH pa pb ra0 rb0 p s0 eq_refl Hs0) as Hle.
+      unfold cins. rewrite (opn0 w open0). cbn [app]. destruct (pa ++ ra0) as [|x raa].
+      * rewrite pcell_nil_cons.
+        match goal with |- _ <= fst (clamp_local ?c) => pose proof (clamp_local_ge c) end.
+        cbn [fst] in *. rewrite (opn0 w open0) in *. lia.
+      * rewrite pcell_cons_cons.
+        match goal with |- _ <= fst (clamp_local ?c) => pose proof (clamp_local_ge c) end.
+        match goal with H : fst (decide ?m ?d ?i) <= _ /\ _ |- _ => pose proof (decide_max m d i) end.
+        rewrite !(opn0 w open0) in *. lia.
+Qed.
+
+End LocalOptimal0.
+
+Lemma fscore_fits : forall w al p a b s, fscore w p a b al = Some s ->
+  (fst (consumes al) <= length a)%nat /\ (snd (consumes al) <= length b)%nat.
+Proof.
+  intros w. induction al as [|st r IH]; intros p a b s H; [cbn; lia|].
+  cbn [consumes]. destruct (consumes r) as [i j] eqn:E. destruct st; cbn [fscore] in H.
+  - discriminate.
+  - destruct a as [|x a]; [discriminate|]. destruct b as [|y b]; [discriminate|].
+    apply omap_some in H. destruct H as (s0 & H & _). apply IH in H. cbn in *. lia.
+  - destruct a as [|x a]; [discriminate|].
+    apply omap_some in H. destruct H as (s0 & H & _). apply IH in H. cbn in *. lia.
+  - destruct b as [|y b]; [discriminate|].
+    apply omap_some in H. destruct H as (s0 & H & _). apply IH in H. cbn in *. lia.
+Qed.
+
+Lemma local_result_score : forall w bn ra rb al ra0 rb0,
+  snd (local_result w bn ra rb al ra0 rb0) = fst (pcell w clamp_local ra rb).
+Proof.
+  intros. unfold local_result. destruct (Z.eqb_spec (fst (pcell w clamp_local ra rb)) 0) as [E|E];
+    [rewrite E|]; reflexivity.
+Qed.
+
+Theorem local_optimal0_g : forall g a b, covers_g g a b -> gap_open_g g = Ok 0 ->
+  exists ls, local_score_g g a b = Ok ls /\
+    forall i j al s, score_g g (skipn i a) (skipn j b) al = Ok s -> s <= ls.
+Proof.
+  intros g a b Hcov Hopen. pose proof (covers_agrees g a b Hcov) as Hag.
+  destruct (local_g_run g a b Hcov) as (pa & ra & pb & rb & al0 & ra0 & rb0 & Ha & Hb & _ & Hmax & Hrun).
+  set (w := weights g) in *.
+  assert (open0 : w Gap Gap = 0) by (unfold w, weights; unfold gap_open_g in Hopen; rewrite Hopen; reflexivity).
+  exists (fst (pcell w clamp_local ra rb)). split.
+  - unfold local_score_g. rewrite Hrun. cbn [obind]. rewrite local_result_score. reflexivity.
+  - intros i j al s Hs. unfold score_g in Hs.
+    assert (Hag' : agrees w g (skipn i a) (skipn j b)).
+    { apply (agrees_incl w g a b); [| |exact Hag]; intros u Hu; eapply in_skipn; eauto. }
+    rewrite (score_from_fscore w g al SNone _ _ Hag') in Hs. apply o2o_ok in Hs.
+    destruct (fscore_fits w al SNone _ _ s Hs) as [Hfa Hfb].
+    destruct (consumes al) as [na nb] eqn:Ec. cbn [fst snd] in *.
+    rewrite <- (firstn_skipn na (skipn i a)), <- (firstn_skipn nb (skipn j b)) in Hs.
+    rewrite fscore_app_ignore in Hs by (rewrite Ec, !firstn_length, !Nat.min_l by lia; reflexivity).
+    set (A1 := firstn na (skipn i a)) in *. set (B1 := firstn nb (skipn j b)) in *.
+    assert (Hra : rev a = rev (skipn na (skipn i a)) ++ (rev A1 ++ rev (firstn i a))).
+    { rewrite <- !rev_app_distr. unfold A1. rewrite app_assoc_reverse.
+      rewrite (firstn_skipn na), (firstn_skipn i). reflexivity. }
+    assert (Hrb : rev b = rev (skipn nb (skipn j b)) ++ (rev B1 ++ rev (firstn j b))).
+    { rewrite <- !rev_app_distr. unfold B1. rewrite app_assoc_reverse.
+      rewrite (firstn_skipn nb), (firstn_skipn j). reflexivity. }
+    eapply Z.le_trans; [|apply (Hmax _ _ _ _ Hra Hrb)].
+    apply (local_upper w open0 al (rev A1) (rev B1) _ _ SNone s).
+    + rewrite Ec, !rev_length. unfold A1, B1. rewrite !firstn_length, !Nat.min_l by lia. reflexivity.
+    + rewrite !rev_involutive. exact Hs.
+Qed.
+
+(* ---- neither function panics on covered sequences ---------------------------- *)
+Theorem no_panic_g : forall g a b, covers_g g a b ->
+  (exists r, global_g g a b = Ok r) /\ (exists r, local_g g a b = Ok r).
+Proof.
+  intros g a b Hcov. split.
+  - destruct (global_g_run g a b Hcov) as (al & Hr & _). eauto.
+  - destruct (local_g_run g a b Hcov) as (pa & ra & pb & rb & al & ra0 & rb0 & _ & _ & _ & _ & Hrun). eauto.
+Qed.
+
+(* ======================================================================== *)
+(* Levenshtein: Global's score is minus the edit distance.                     *)
+Lemma decide_fst_max : forall m d i, fst (decide m d i) = Z.max m (Z.max d i).
+Proof.
+  intros m d i. destruct (decide_cases m d i) as [[E H]|[[E H]|[E H]]]; rewrite E; cbn [fst]; lia.
+Qed.
+
+Definition wlev : byte -> byte -> Z := fun x y => if (x =? y)%N then 0 else -1.
+
+Lemma ed_nil_l : forall b, edit_distance [] b = length b.
+Proof. destruct b; reflexivity. Qed.
+Lemma ed_nil_r : forall a, edit_distance a [] = length a.
+Proof. destruct a; reflexivity. Qed.
+Lemma ed_cons : forall x a y b,
+  edit_distance (x :: a) (y :: b) =
+  min3 (S (edit_distance a (y :: b))) (S (edit_distance (x :: a) b))
+       (edit_distance a b + (if (x =? y)%N then 0 else 1))%nat.
+Proof. reflexivity. Qed.
+
+Lemma wlev_open0 : wlev Gap Gap = 0.
+Proof. reflexivity. Qed.
+
+Lemma wlev_gap_r : forall x, x <> Gap -> wlev x Gap = -1.
+Proof. intros x H. unfold wlev. apply N.eqb_neq in H. rewrite H. reflexivity. Qed.
+Lemma wlev_gap_l : forall y, y <> Gap -> wlev Gap y = -1.
+Proof. intros y H. unfold wlev. destruct (N.eqb_spec Gap y); [subst; contradiction|reflexivity]. Qed.
+
+Lemma lev_cell_ed : forall ra rb : list N, ~ In Gap ra -> ~ In Gap rb ->
+  fst (pcell wlev clamp_none ra rb) = - Z.of_nat (edit_distance ra rb).
+Proof.
+  induction ra as [|x ra IHa]; induction rb as [|y rb IHb]; intros Ha Hb.
+  - reflexivity.
+  - rewrite pcell_nil_cons, clamp_none_id. cbn [fst].
+    rewrite IHb by (try exact Ha; intros H; apply Hb; right; exact H).
+    rewrite (opn0 wlev wlev_open0), wlev_gap_l by (intros ->; apply Hb; left; reflexivity).
+    rewrite !ed_nil_l. cbn [length]. lia.
+  - rewrite pcell_cons_nil, clamp_none_id. cbn [fst].
+    rewrite IHa by (try exact Hb; intros H; apply Ha; right; exact H).
+    rewrite (opn0 wlev wlev_open0), wlev_gap_r by (intros ->; apply Ha; left; reflexivity).
+    rewrite !ed_nil_r. cbn [length]. lia.
+  - assert (Ha' : ~ In Gap ra) by (intros H; apply Ha; right; exact H).
+    assert (Hb' : ~ In Gap rb) by (intros H; apply Hb; right; exact H).
+    rewrite pcell_cons_cons, clamp_none_id, decide_fst_max.
+    rewrite (IHa rb Ha' Hb'), (IHa (y :: rb) Ha' Hb), (IHb Ha Hb').
+    rewrite !(opn0 wlev wlev_open0).
+    rewrite wlev_gap_r by (intros ->; apply Ha; left; reflexivity).
+    rewrite wlev_gap_l by (intros ->; apply Hb; left; reflexivity).
+    rewrite ed_cons. unfold min3, wlev. destruct (x =? y)%N; lia.
+Qed.
+
+Lemma consumes_rev : forall al, consumes (rev al) = consumes al.
+Proof.
+  induction al as [|s r IH]; [reflexivity|].
+  cbn [rev consumes]. rewrite consumes_app, IH. destruct (consumes r), s; cbn; f_equal; lia.
+Qed.
+
+Section Rev0.
+Variable w : byte -> byte -> Z.
+Hypothesis open0 : w Gap Gap = 0.
+Notation pc := (pcell w clamp_none).
+
+(* with zero gap-open the score does not depend on the reading direction *)
+Lemma fscore_rev0 : forall al p p' a b s, consumes al = (length a, length b) ->
+  fscore w p a b al = Some s -> fscore w p' (rev a) (rev b) (rev al) = Some s.
+Proof.
+  induction al as [|st r IH]; intros p p' a b s Hc Hs.
+  - cbn in Hc. destruct a; destruct b; try discriminate. exact Hs.
+  - cbn [consumes] in Hc. destruct (consumes r) as [i j] eqn:E. destruct st; cbn [fscore] in Hs.
+    + discriminate.
+    + destruct a as [|x a]; [discriminate|]. destruct b as [|y b]; [discriminate|].
+      cbn in Hc. injection Hc as Hi Hj. subst i j.
+      apply omap_some in Hs. destruct Hs as (s0 & Hs0 & ->).
+      cbn [rev]. rewrite fscore_snoc_match by (rewrite consumes_rev, E, !rev_length; reflexivity).
+      rewrite (IH SMatch p' a b s0 eq_refl Hs0). cbn. f_equal. lia.
+    + destruct a as [|x a]; [discriminate|].
+      cbn in Hc. injection Hc as Hi Hj. subst i j.
+      apply omap_some in Hs. destruct Hs as (s0 & Hs0 & ->).
+      cbn [rev]. rewrite fscore_snoc_del by (rewrite consumes_rev, E, !rev_length; reflexivity).
+      rewrite (IH SDel p' a b s0 eq_refl Hs0). cbn. f_equal. unfold cdel.
+      rewrite !(opn0 w open0). lia.
+    + destruct b as [|y b]; [destruct a; discriminate|].
+      cbn in Hc. injection Hc as Hi Hj. subst i j.
+      apply omap_some in Hs. destruct Hs as (s0 & Hs0 & ->).
+      cbn [rev]. rewrite fscore_snoc_ins by (rewrite consumes_rev, E, !rev_length; reflexivity).
+      rewrite (IH SIns p' a b s0 eq_refl Hs0). cbn. f_equal. unfold cins.
+      rewrite !(opn0 w open0). lia.
+Qed.
+
+Lemma pc_rev0_le : forall ra rb, fst (pc ra rb) <= fst (pc (rev ra) (rev rb)).
+Proof.
+  intros ra rb.
+  destruct (global_path w _ ra rb (le_n _)) as (al & Hc & Hs & _ & _).
+  apply (global_upper w open0 (rev al) (rev ra) (rev rb) SNone).
+  - rewrite consumes_rev, Hc, !rev_length. reflexivity.
+  - apply (fscore_rev0 al SNone SNone); [rewrite Hc, !rev_length; reflexivity|exact Hs].
+Qed.
+
+Lemma pc_rev0 : forall ra rb, fst (pc (rev ra) (rev rb)) = fst (pc ra rb).
+Proof.
+  intros ra rb. pose proof (pc_rev0_le ra rb). pose proof (pc_rev0_le (rev ra) (rev rb)) as H1.
+  rewrite !rev_involutive in H1. lia.
+Qed.
+
+End Rev0.
+
+Theorem lev_edit_distance_g : forall g a b, agrees wlev g a b -> ~ In Gap a -> ~ In Gap b ->
+  global_score_g g a b = Ok (- Z.of_nat (edit_distance a b)).
+Proof.
+  intros g a b Hag Ha Hb. destruct (global_g_run_w wlev g a b Hag) as (al & Hr & _ & _).
+  unfold global_score_g. rewrite Hr. cbn [obind snd].
+  rewrite (pc_rev0 wlev wlev_open0), (lev_cell_ed a b Ha Hb). reflexivity.
+Qed.
+
+(* ======================================================================== *)
+(* Symmetric matrices: swapping the arguments.                                 *)
+Definition mstep (s : step) : step := match s with SDel => SIns | SIns => SDel | s => s end.
+Definition mirror (al : list step) : list step := map mstep al.
+
+Lemma consumes_mirror : forall al, consumes (mirror al) = (snd (consumes al), fst (consumes al)).
+Proof.
+  induction al as [|s r IH]; [reflexivity|].
+  cbn [mirror map consumes]. fold (mirror r). rewrite IH. destruct (consumes r), s; reflexivity.
+Qed.
+
+Lemma score_mirror : forall g, symmetric_g g -> forall al p a b,
+  score_from g (mstep p) b a (mirror al) = score_from g p a b al.
+Proof.
+  intros g Hsym. induction al as [|s r IH]; intros p a b; [reflexivity|].
+  destruct s; cbn [mirror map mstep score_from]; fold (mirror r).
+  - reflexivity.
+  - destruct a as [|x a]; destruct b as [|y b]; try reflexivity.
+    rewrite (Hsym y x). rewrite <- (IH SMatch a b). reflexivity.
+  - destruct a as [|x a]; [reflexivity|].
+    rewrite (Hsym Gap x). rewrite <- (IH SDel a b).
+    replace (is_ins (mstep p)) with (is_del p) by (destruct p; reflexivity). reflexivity.
+  - destruct b as [|y b]; [reflexivity|].
+    rewrite (Hsym y Gap). rewrite <- (IH SIns a b).
+    replace (is_del (mstep p)) with (is_ins p) by (destruct p; reflexivity). reflexivity.
+Qed.
+
+Lemma covers_swap : forall g a b, symmetric_g g -> covers_g g a b -> covers_g g b a.
+Proof. intros g a b Hsym H x y Hx Hy. rewrite Hsym. apply H; assumption. Qed.
+
+Lemma global_swap_le : forall g a b, symmetric_g g -> covers_g g a b -> gap_open_g g = Ok 0 ->
+  forall s1 s2, global_score_g g a b = Ok s1 -> global_score_g g b a = Ok s2 -> s1 <= s2.
+Proof.
+  intros g a b Hsym Hcov Hopen s1 s2 H1 H2.
+  destruct (global_valid_g g a b Hcov) as (al & s & Hr & Hc & Hs).
+  unfold global_score_g in H1. rewrite Hr in H1. cbn in H1. injection H1 as <-.
+  destruct (global_optimal0_g g b a (covers_swap g a b Hsym Hcov) Hopen) as (gs & Hgs & Hbound).
+  rewrite Hgs in H2. injection H2 as <-.
+  apply (Hbound (mirror al)).
+  - rewrite consumes_mirror, Hc. reflexivity.
+  - unfold score_g in *. rewrite <- Hs. apply (score_mirror g Hsym al SNone a b).
+Qed.
+
+Theorem global_swap_g : forall g a b, symmetric_g g -> covers_g g a b -> gap_open_g g = Ok 0 ->
+  global_score_g g a b = global_score_g g b a.
+Proof.
+  intros g a b Hsym Hcov Hopen.
+  pose proof (covers_swap g a b Hsym Hcov) as Hcov'.
+  destruct (global_optimal0_g g a b Hcov Hopen) as (s1 & H1 & _).
+  destruct (global_optimal0_g g b a Hcov' Hopen) as (s2 & H2 & _).
+  pose proof (global_swap_le g a b Hsym Hcov Hopen s1 s2 H1 H2).
+  pose proof (global_swap_le g b a Hsym Hcov' Hopen s2 s1 H2 H1).
+  rewrite H1, H2. f_equal. lia.
+Qed.
+
+Lemma nonpos_swap : forall g a b, symmetric_g g -> nonpos_gaps_g g a b -> nonpos_gaps_g g b a.
+Proof.
+  intros g a b Hsym [H1 H2]. split.
+  - intros x z Hx Hg. rewrite Hsym in Hg. apply (H2 x z Hx Hg).
+  - intros y z Hy Hg. rewrite Hsym in Hg. apply (H1 y z Hy Hg).
+Qed.
+
+Lemma local_swap_le : forall g a b, symmetric_g g -> covers_g g a b -> nonpos_gaps_g g a b ->
+  gap_open_g g = Ok 0 ->
+  forall s1 s2, local_score_g g a b = Ok s1 -> local_score_g g b a = Ok s2 -> s1 <= s2.
+Proof.
+  intros g a b Hsym Hcov Hnp Hopen s1 s2 H1 H2.
+  destruct (local_valid_g g a b Hcov Hnp) as (r & Hr & Hv).
+  unfold local_score_g in H1. rewrite Hr in H1. cbn [obind] in H1. injection H1 as <-.
+  destruct (local_optimal0_g g b a (covers_swap g a b Hsym Hcov) Hopen) as (ls & Hls & Hbound).
+  rewrite Hls in H2. injection H2 as <-.
+  destruct r as [[[al ai] bi] s]. cbn [snd]. unfold local_answer_valid in Hv.
+  destruct Hv as [(_ & _ & _ & ->)|(_ & _ & _ & _ & _ & Hs)].
+  - apply (Hbound O O []). reflexivity.
+  - apply (Hbound (Z.to_nat bi) (Z.to_nat ai) (mirror al)).
+    unfold score_g in *. rewrite <- Hs. apply (score_mirror g Hsym al SNone).
+Qed.
+
+Theorem local_swap_g : forall g a b, symmetric_g g -> covers_g g a b -> nonpos_gaps_g g a b ->
+  gap_open_g g = Ok 0 -> local_score_g g a b = local_score_g g b a.
+Proof.
+  intros g a b Hsym Hcov Hnp Hopen.
+  pose proof (covers_swap g a b Hsym Hcov) as Hcov'.
+  pose proof (nonpos_swap g a b Hsym Hnp) as Hnp'.
+  destruct (local_optimal0_g g a b Hcov Hopen) as (s1 & H1 & _).
+  destruct (local_optimal0_g g b a Hcov' Hopen) as (s2 & H2 & _).
+  pose proof (local_swap_le g a b Hsym Hcov Hnp Hopen s1 s2 H1 H2).
+  pose proof (local_swap_le g b a Hsym Hcov' Hnp' Hopen s2 s1 H2 H1).
+  rewrite H1, H2. f_equal. lia.
+Qed.
+
+(* ======================================================================== *)
+(* Local returns no steps exactly when no pair of characters scores above 0.    *)
+Section LocalNone.
+Variable w : byte -> byte -> Z.
+Notation lc := (pcell w clamp_local).
+
+Lemma ptrl_nonempty : forall ra rb al ra0 rb0,
+  ptrl w ra rb al ra0 rb0 -> 0 < fst (lc ra rb) -> al <> [].
+Proof.
+  intros ra rb al ra0 rb0 H Hpos.
+  inversion H; subst; try (intros E; apply app_eq_nil in E; destruct E; discriminate).
+  lia.
+Qed.
+
+Lemma lc_all_zero : w Gap Gap <= 0 -> forall ra rb : list N,
+  (forall x, In x ra -> w x Gap <= 0) -> (forall y, In y rb -> w Gap y <= 0) ->
+  (forall x y, In x ra -> In y rb -> w x y <= 0) ->
+  fst (lc ra rb) = 0.
+Proof.
+  intros Ho. induction ra as [|x ra IHa]; induction rb as [|y rb IHb]; intros Hd Hi Hm.
+  - reflexivity.
+  - apply (row0_zero w Ho). exact Hi.
+  - apply (col0_zero w Ho). exact Hd.
+  - assert (Hd' : forall u, In u ra -> w u Gap <= 0) by (intros u Hu; apply Hd; right; exact Hu).
+    assert (Hi' : forall u, In u rb -> w Gap u <= 0) by (intros u Hu; apply Hi; right; exact Hu).
+    rewrite pcell_cons_cons.
+    rewrite (IHa rb Hd' Hi') by (intros u v Hu Hv; apply Hm; right; assumption).
+    rewrite (IHa (y :: rb) Hd' Hi) by (intros u v Hu Hv; apply Hm; [right|]; assumption).
+    rewrite (IHb Hd Hi') by (intros u v Hu Hv; apply Hm; [|right]; assumption).
+    pose proof (Hm x y (or_introl eq_refl) (or_introl eq_refl)).
+    pose proof (Hd x (or_introl eq_refl)). pose proof (Hi y (or_introl eq_refl)).
+    match goal with |- fst (clamp_local ?c) = 0 =>
+      destruct (clamp_local_cases c) as [[E Hc]|[E Hc]]; rewrite E; [|reflexivity] end.
+    rewrite decide_fst_max in *.
+    match goal with |- context [opn w ?c1] => pose proof (opn_nonpos w Ho c1) end.
+    match goal with |- context [Z.max _ (Z.max _ (_ + opn w ?c2))] => pose proof (opn_nonpos w Ho c2) end.
+    lia.
+Qed.
+
+Lemma lc_ge_pair : forall x ra y rb, w x y <= fst (lc (x :: ra) (y :: rb)).
+Proof.
+  intros x ra y rb. rewrite pcell_cons_cons.
+  match goal with |- _ <= fst (clamp_local ?c) => pose proof (clamp_local_ge c) end.
+  match goal with H : fst (decide ?m ?d ?i) <= _ /\ _ |- _ => pose proof (decide_max m d i) end.
+  pose proof (lc_nonneg w ra rb). lia.
+Qed.
+
+End LocalNone.
+
+Theorem local_none_iff_g : forall g a b, covers_g g a b -> nonpos_gaps_g g a b ->
+  exists al ai bi s, local_g g a b = Ok (al, ai, bi, s) /\
+    (al = [] <-> forall x y z, In x a -> In y b -> g x y = Ok z -> z <= 0).
+Proof.
+  intros g a b Hcov [Hnd Hni]. pose proof (covers_agrees g a b Hcov) as Hag.
+  destruct (local_g_run g a b Hcov) as (pa & ra & pb & rb & al & ra0 & rb0 & Ha & Hb & Hp & Hmax & Hrun).
+  set (w := weights g) in *.
+  assert (Hopen : w Gap Gap <= 0).
+  { apply (Hnd Gap); [left; reflexivity|]. apply Hag; left; reflexivity. }
+  assert (Hin_a : forall x, In x ra -> In x a).
+  { intros x Hx. apply (proj2 (in_rev a _)). rewrite Ha. apply in_or_app. right. exact Hx. }
+  assert (Hin_b : forall y, In y rb -> In y b).
+  { intros y Hy. apply (proj2 (in_rev b _)). rewrite Hb. apply in_or_app. right. exact Hy. }
+  unfold local_result in Hrun. pose proof (lc_nonneg w ra rb) as Hnn.
+  destruct (Z.eqb_spec (fst (pcell w clamp_local ra rb)) 0) as [Hz|Hz].
+  - exists [], (-1), (-1), 0. split; [exact Hrun|]. split; [|reflexivity].
+    intros _ x y z Hx Hy Hg.
+    assert (Hzw : z = w x y).
+    { pose proof (Hag x y (or_intror Hx) (or_intror Hy)) as E. rewrite E in Hg. injection Hg as <-. reflexivity. }
+    subst z.
+    destruct (in_split _ _ Hx) as (a1 & a2 & ->). destruct (in_split _ _ Hy) as (b1 & b2 & ->).
+    assert (Hra : rev (a1 ++ x :: a2) = rev a2 ++ (x :: rev a1))
+      by (rewrite rev_app_distr; cbn [rev]; rewrite <- app_assoc; reflexivity).
+    assert (Hrb : rev (b1 ++ y :: b2) = rev b2 ++ (y :: rev b1))
+      by (rewrite rev_app_distr; cbn [rev]; rewrite <- app_assoc; reflexivity).
+    pose proof (Hmax _ _ _ _ Hra Hrb) as Hle.
+    pose proof (lc_ge_pair w x (rev a1) y (rev b1)). unfold byte, bytes in *. lia.
+  - eexists al, _, _, _. split; [exact Hrun|]. split.
+    + intros E. exfalso. apply (ptrl_nonempty w ra rb al ra0 rb0 Hp); [lia|exact E].
+    + intros Hall. exfalso. apply Hz. apply (lc_all_zero w Hopen).
+      * intros x Hx. apply (Hnd x); [right; apply Hin_a; exact Hx|].
+        apply Hag; [right; apply Hin_a; exact Hx|left; reflexivity].
+      * intros y Hy. apply (Hni y); [right; apply Hin_b; exact Hy|].
+        apply Hag; [left; reflexivity|right; apply Hin_b; exact Hy].
+      * intros x y Hx Hy. apply (Hall x y); [apply Hin_a; exact Hx|apply Hin_b; exact Hy|].
+        apply Hag; right; [apply Hin_a; exact Hx|apply Hin_b; exact Hy].
+Qed.
